@@ -305,10 +305,13 @@ void runStress(uint64_t caseIdx, rt::Rng rng) {
     int perThread = (int) std::max<long>(20, ops / nT);
     unsigned dwellUs = (unsigned) rng.below(3) * 25;
     spy::Delays d;
-    int profile = (int) rng.below(4);
+    int profile = (int) rng.below(5);
+    // profile 4: threads are held up right before they take the Resource's internal mutex (in lock() and in
+    // unlock()), and sections are long: widens windows between a lock-free step and the mutex-protected one
+    if (profile == 4) { d.beforeLock = 350; d.afterUnlock = 100; d.maxUs = 250; dwellUs = 150; }
     if (profile == 1) { d.afterWake = 300; d.maxUs = 150; }
-    else if (profile == 2) { d.afterWake = 150; d.condEntry = 100; d.beforeLock = 30; d.afterUnlock = 60; d.beforeNotify = 100; d.maxUs = 80; }
-    else if (profile == 3) { d.afterWake = 700; d.maxUs = 400; d.threadStart = 300; }
+    else if (profile == 2) { d.afterWake = 150; d.condEntry = 100; d.beforeLock = 200; d.afterUnlock = 60; d.beforeNotify = 100; d.maxUs = 80; }
+    else if (profile == 3) { d.afterWake = 700; d.beforeLock = 60; d.maxUs = 400; d.threadStart = 300; }
     spy::configure(d, rt::mix(rt::st().seed, caseIdx));
     if (!profile) spy::disableDelays();
     spy::pinCpus(cpus, (int) rt::optInt("cpubase", 0));
